@@ -194,7 +194,26 @@ def run_verus(name, text, workdir, threads=8, rlimit=None):
     if rlimit:
         cmd += ['--rlimit', str(rlimit)]
     t0 = time.time()
-    p = subprocess.run(cmd, capture_output=True, text=True, cwd=workdir)
+    tmo = int(os.environ.get('VEKVERIF_VERUS_TIMEOUT', '1500'))
+    try:
+        pr = subprocess.Popen(cmd, stdout=subprocess.PIPE, stderr=subprocess.PIPE, text=True, cwd=workdir,
+                              start_new_session=True)
+        out, err = pr.communicate(timeout=tmo)
+        rc = pr.returncode
+    except subprocess.TimeoutExpired:
+        import signal
+        try:
+            os.killpg(pr.pid, signal.SIGKILL)
+        except Exception:
+            pass
+        out, err = pr.communicate()
+        rc = -9
+        err = (err or '') + '\nerror: verus exceeded the wall-clock limit of %d s (rlimit)\n' % tmo
+
+    class _P:
+        pass
+    p = _P()
+    p.stdout, p.stderr, p.returncode = out, err, rc
     dt = time.time() - t0
     res = {}
     try:
